@@ -729,6 +729,20 @@ def g16_tail_after_first(site, tests):
     return None
 
 
+def _enumerate_index_of(e):
+    """X when e is the index component of an item of `X.iter().enumerate()` (so e < X.len())."""
+    if e[0] == "field" and e[2] == "0" and e[1][0] == "field" and e[1][2] == "0" and e[1][1][0] == "variant" and e[1][1][2] == "Some":
+        nx = e[1][1][1]
+        if nx[0] == "call" and nx[1] == "<std::iter::Enumerate as std::iter::Iterator>::next":
+            en = nx[2][0]
+            if en[0] == "call" and en[1].endswith("Iterator>::enumerate"):
+                src = en[2][0]
+                while src[0] == "call" and src[1].rsplit("::", 1)[1] in ("iter", "iter_mut", "deref", "as_slice", "as_ref") and src[2]:
+                    src = src[2][0]
+                return src
+    return None
+
+
 def g3b_remove_found_index(site, tests):
     """v.remove(k) where k is Some(i) recorded from `for i in 0..v.len()` and v is untouched since"""
     if site.kind != "vec_remove" or len(site.ops) < 2:
@@ -745,6 +759,9 @@ def g3b_remove_found_index(site, tests):
         if p[0] == "agg" and p[2] == "Some":
             ri = _range_item(dict(p[3]).get("0", ()))
             if ri and ri[0] == ("const", 0) and _len_of(ri[1]) == V:
+                ok = True
+                continue
+            if _enumerate_index_of(dict(p[3]).get("0", ())) == V:
                 ok = True
                 continue
         return None
